@@ -121,3 +121,236 @@ theorem adj_core {K : Type} [Field K] (n : Nat) (v : K) (x sy : Nat → K) :
   apply Finset.sum_congr rfl; intro k _
   rw [Nat.mul_comm k j]; ring
 end OdlModel.Fourier
+
+/-! ### n-d: steps of `applyAxes`, cancellation of a forward step with its inverse step, telescoping -/
+
+namespace OdlModel.Fourier
+
+abbrev Step (K : Type) := Nat × Nat × ((Nat → K) → Nat → K)
+
+/-- one step of `applyAxes` -/
+def stepFn {K : Type} [Inhabited K] (acc : List Nat × Array K) (st : Step K) : List Nat × Array K :=
+  let (o, l, i) := axisSplit acc.1 st.1
+  (acc.1.set st.1 st.2.1, alongAxis o l i st.2.1 st.2.2 acc.2)
+
+theorem applyAxes_eq_foldl {K : Type} [Inhabited K] (shape : List Nat) (steps : List (Step K))
+    (x : Array K) : applyAxes shape steps x = steps.foldl stepFn (shape, x) := rfl
+
+def lprod (l : List Nat) : Nat := l.foldl (· * ·) 1
+
+theorem foldl_mul_eq (l : List Nat) (a : Nat) : l.foldl (· * ·) a = a * l.foldl (· * ·) 1 := by
+  induction l generalizing a with
+  | nil => simp
+  | cons b t ih => simp only [List.foldl_cons]; rw [ih, ih (1 * b)]; ring
+
+theorem axisSplit_prod (sh : List Nat) (a : Nat) (ha : a < sh.length) :
+    (axisSplit sh a).1 * (axisSplit sh a).2.1 * (axisSplit sh a).2.2 = lprod sh := by
+  unfold axisSplit lprod
+  simp only
+  conv_rhs => rw [← List.take_append_drop a sh, List.drop_eq_getElem_cons ha]
+  rw [List.foldl_append, List.foldl_cons, foldl_mul_eq _ (_ * _)]
+  simp [List.getD_eq_getElem?_getD, ha]
+
+theorem axisSplit_set (sh : List Nat) (a m : Nat) (ha : a < sh.length) :
+    axisSplit (sh.set a m) a = ((axisSplit sh a).1, m, (axisSplit sh a).2.2) := by
+  unfold axisSplit
+  have h1 : (sh.set a m).take a = sh.take a := List.take_set_of_le (Nat.le_refl a)
+  have h2 : (sh.set a m).drop (a + 1) = sh.drop (a + 1) := List.drop_set_of_lt (Nat.lt_succ_self a)
+  have h3 : (sh.set a m).getD a 1 = m := by
+    simp [List.getD_eq_getElem?_getD, ha]
+  rw [h1, h2, h3]
+
+
+/-- `G` along an axis after `F` along the same axis (lengths `len → m → len`) returns the array
+when `G ∘ F` is the identity on the fibres (which all satisfy `P`). -/
+theorem alongAxis_cancel {K : Type} [Inhabited K] (outer len inner m : Nat)
+    (F G : (Nat → K) → Nat → K) (P : (Nat → K) → Prop)
+    (hcongr : ∀ f g : Nat → K, (∀ j, j < m → f j = g j) → ∀ k, G f k = G g k)
+    (hGF : ∀ f : Nat → K, P f → ∀ k, k < len → G (F f) k = f k)
+    (x : Array K) (hP : ∀ g : Nat → Nat, P (fun k => x.getD (g k) default))
+    (idx : Nat) (h : idx < outer * len * inner) :
+    (alongAxis outer m inner len G (alongAxis outer len inner m F x)).getD idx default
+      = x.getD idx default := by
+  have hinner : 0 < inner := by
+    rcases Nat.eq_zero_or_pos inner with h0 | h0
+    · subst h0; simp at h
+    · exact h0
+  have hlen : 0 < len := by
+    rcases Nat.eq_zero_or_pos len with h0 | h0
+    · subst h0; simp at h
+    · exact h0
+  rw [alongAxis_get _ _ _ _ _ _ _ h]
+  set o := idx / inner / len with ho
+  set k := idx / inner % len with hk
+  set i := idx % inner with hi
+  have hkl : k < len := Nat.mod_lt _ hlen
+  have hil : i < inner := Nat.mod_lt _ hinner
+  have hidx : idx = (o * len + k) * inner + i := by
+    have h1 : idx = idx / inner * inner + idx % inner := (Nat.div_add_mod' idx inner).symm
+    have h2 : idx / inner = idx / inner / len * len + idx / inner % len := (Nat.div_add_mod' _ len).symm
+    rw [ho, hk, hi, ← h2, ← h1]
+  have ho_lt : o < outer := by
+    rw [ho, Nat.div_div_eq_div_mul, Nat.div_lt_iff_lt_mul (Nat.mul_pos hinner hlen)]
+    calc idx < outer * len * inner := h
+      _ = outer * (inner * len) := by ring
+  have hfib : ∀ j, j < m →
+      (alongAxis outer len inner m F x).getD ((o * m + j) * inner + i) default
+        = F (fun k' => x.getD ((o * len + k') * inner + i) default) j := by
+    intro j hj
+    have hb : (o * m + j) * inner + i < outer * m * inner := by
+      have : o * m + j < outer * m := by nlinarith
+      nlinarith
+    rw [alongAxis_get _ _ _ _ _ _ _ hb]
+    obtain ⟨a, b, c⟩ := fibre_index m inner o j i hj hil
+    rw [a, b, c]
+  rw [hcongr _ (F (fun k' => x.getD ((o * len + k') * inner + i) default)) hfib k,
+    hGF _ (hP _) k hkl, ← hidx]
+
+theorem alongAxis_cancel_eq {K : Type} [Inhabited K] (outer len inner m : Nat)
+    (F G : (Nat → K) → Nat → K) (P : (Nat → K) → Prop)
+    (hcongr : ∀ f g : Nat → K, (∀ j, j < m → f j = g j) → ∀ k, G f k = G g k)
+    (hGF : ∀ f : Nat → K, P f → ∀ k, k < len → G (F f) k = f k)
+    (x : Array K) (hP : ∀ g : Nat → Nat, P (fun k => x.getD (g k) default))
+    (hx : x.size = outer * len * inner) :
+    alongAxis outer m inner len G (alongAxis outer len inner m F x) = x := by
+  apply Array.ext
+  · rw [alongAxis_size, hx]
+  · intro i h1 h2
+    have := alongAxis_cancel outer len inner m F G P hcongr hGF x hP i (by rw [← hx]; exact h2)
+    simpa [Array.getD, h1, h2] using this
+
+/-- a forward step along axis `a` followed by the inverse step along the same axis -/
+theorem step_pair_cancel {K : Type} [Inhabited K] (sh : List Nat) (y : Array K) (a m : Nat)
+    (F G : (Nat → K) → Nat → K) (P : (Nat → K) → Prop)
+    (ha : a < sh.length) (hy : y.size = lprod sh)
+    (hcongr : ∀ f g : Nat → K, (∀ j, j < m → f j = g j) → ∀ k, G f k = G g k)
+    (hGF : ∀ f : Nat → K, P f → ∀ k, k < sh.getD a 1 → G (F f) k = f k)
+    (hP : ∀ g : Nat → Nat, P (fun k => y.getD (g k) default)) :
+    stepFn (stepFn (sh, y) (a, m, F)) (a, sh.getD a 1, G) = (sh, y) := by
+  have hs := axisSplit_set sh a m ha
+  have hp := axisSplit_prod sh a ha
+  simp only [stepFn]
+  rw [hs]
+  have hl : (axisSplit sh a).2.1 = sh.getD a 1 := rfl
+  apply Prod.ext
+  · simp [List.getD_eq_getElem?_getD, ha]
+  · simp only
+    rw [← hl] at hGF ⊢
+    exact alongAxis_cancel_eq _ _ _ m F G P hcongr hGF y hP (by rw [hy, ← hp])
+
+/-- shape-preserving steps keep shape and size -/
+theorem fold_shape {K : Type} [Inhabited K] (B : List Nat) (sh : List Nat) (len : Nat → Nat)
+    (F : Nat → (Nat → K) → Nat → K)
+    (hlt : ∀ a ∈ B, a < sh.length) (hlen : ∀ a ∈ B, sh.getD a 1 = len a) (y : Array K)
+    (hy : y.size = lprod sh) :
+    ((B.map fun a => ((a, len a, F a) : Step K)).foldl stepFn (sh, y)).1 = sh ∧
+    ((B.map fun a => ((a, len a, F a) : Step K)).foldl stepFn (sh, y)).2.size = lprod sh := by
+  induction B generalizing y with
+  | nil => exact ⟨rfl, hy⟩
+  | cons a B ih =>
+    simp only [List.map_cons, List.foldl_cons]
+    have ha := hlt a (by simp)
+    have hla := hlen a (by simp)
+    have h1 : stepFn (sh, y) ((a, len a, F a) : Step K)
+        = (sh, alongAxis (axisSplit sh a).1 (axisSplit sh a).2.1 (axisSplit sh a).2.2 (len a) (F a) y) := by
+      simp only [stepFn]
+      apply Prod.ext
+      · simp [← hla, List.getD_eq_getElem?_getD, ha]
+      · rfl
+    rw [h1]
+    apply ih (fun b hb => hlt b (by simp [hb])) (fun b hb => hlen b (by simp [hb]))
+    rw [alongAxis_size, ← hla]
+    exact axisSplit_prod sh a ha
+
+/-- telescoping of shape-preserving forward steps (applied last axis first) with their inverse
+steps (applied first axis first) -/
+theorem middle_cancel {K : Type} [Inhabited K] (B : List Nat) (sh : List Nat) (len : Nat → Nat)
+    (F G : Nat → (Nat → K) → Nat → K)
+    (hlt : ∀ a ∈ B, a < sh.length) (hlen : ∀ a ∈ B, sh.getD a 1 = len a)
+    (hcongr : ∀ a ∈ B, ∀ f g : Nat → K, (∀ j, j < len a → f j = g j) → ∀ k, G a f k = G a g k)
+    (hGF : ∀ a ∈ B, ∀ f : Nat → K, ∀ k, k < len a → G a (F a f) k = f k)
+    (y : Array K) (hy : y.size = lprod sh) :
+    (B.map fun a => ((a, len a, G a) : Step K)).foldl stepFn
+      ((B.reverse.map fun a => ((a, len a, F a) : Step K)).foldl stepFn (sh, y)) = (sh, y) := by
+  induction B with
+  | nil => rfl
+  | cons a B ih =>
+    have hB1 : ∀ b ∈ B, b < sh.length := fun b hb => hlt b (by simp [hb])
+    have hB2 : ∀ b ∈ B, sh.getD b 1 = len b := fun b hb => hlen b (by simp [hb])
+    simp only [List.reverse_cons, List.map_append, List.map_cons, List.map_nil, List.foldl_append,
+      List.foldl_cons, List.foldl_nil]
+    obtain ⟨hs1, hs2⟩ := fold_shape B.reverse sh len F (fun b hb => hB1 b (by simpa using hb))
+      (fun b hb => hB2 b (by simpa using hb)) y hy
+    set S := (B.reverse.map fun a => ((a, len a, F a) : Step K)).foldl stepFn (sh, y) with hS
+    have hSeq : S = (sh, S.2) := Prod.ext hs1 rfl
+    have ha := hlt a (by simp)
+    have hla := hlen a (by simp)
+    have hc := step_pair_cancel sh S.2 a (len a) (F a) (G a) (fun _ => True) ha hs2
+      (hcongr a (by simp)) (fun f _ k hk => hGF a (by simp) f k (by rw [← hla]; exact hk))
+      (fun _ => trivial)
+    rw [hla] at hc
+    rw [hSeq, hc, ← hSeq, hS]
+    exact ih hB1 hB2 (fun b hb => hcongr b (by simp [hb])) (fun b hb => hGF b (by simp [hb]))
+
+end OdlModel.Fourier
+
+namespace OdlModel.Fourier
+
+/-! ### the n-d definitions as explicit step lists (roots total) -/
+
+theorem mapM_some' {α β : Type} (f : α → β) (l : List α) :
+    l.mapM (fun a => (some (f a) : Option β)) = some (l.map f) := by
+  induction l with
+  | nil => rfl
+  | cons a t ih => simp [List.mapM_cons, ih]
+
+theorem dftForwardNd_eq {K : Type} [Field K] [Inhabited K] (w : Nat → K)
+    (fftw plus hc : Bool) (rshape axes : List Nat) (x : Array K) :
+    dftForwardNd (fun n => some (w n, (w n)⁻¹)) fftw plus hc rshape axes x
+      = some (applyAxes rshape (axes.reverse.map fun a =>
+          (a, (if hc && some a == axes.getLast? then hcLen (rshape.getD a 1) else rshape.getD a 1),
+            if fftw then dftForwardFftw plus (w (rshape.getD a 1)) (w (rshape.getD a 1))⁻¹ (rshape.getD a 1)
+            else dftForwardNp plus (w (rshape.getD a 1)) (w (rshape.getD a 1))⁻¹ (rshape.getD a 1))) x) := by
+  simp only [dftForwardNd, bind_pure_comp, Option.pure_def, Option.bind_eq_bind, Option.bind_some, Option.map_eq_map, Option.map_some]
+  rw [mapM_some']
+  rfl
+
+theorem dftInverseNd_hc_eq {K : Type} [Field K] [Inhabited K] (w : Nat → K) (σ re : K → K)
+    (fftw plus : Bool) (rshape axes : List Nat) (x : Array K) :
+    dftInverseNd (fun n => some (w n, (w n)⁻¹)) σ re fftw plus true rshape axes x
+      = some (applyAxes
+          (rshape.zipIdx.map fun (n, a) => if true && some a == axes.getLast? then hcLen n else n)
+          (axes.map fun a =>
+          (a, rshape.getD a 1,
+            if true && some a == axes.getLast? then
+              fun g k => re (npIrfft σ (w (rshape.getD a 1))⁻¹ (rshape.getD a 1) g k)
+            else if fftw then dftInverseFftw plus (w (rshape.getD a 1)) (w (rshape.getD a 1))⁻¹ (rshape.getD a 1)
+            else dftInverseNp plus (w (rshape.getD a 1)) (w (rshape.getD a 1))⁻¹ (rshape.getD a 1))) x) := by
+  simp only [dftInverseNd, Option.pure_def, Option.bind_eq_bind, Option.bind_some, if_true]
+  rw [mapM_some']
+  rfl
+
+theorem fshape_eq_set (rshape : List Nat) (h : Nat) (hh : h < rshape.length) :
+    (rshape.zipIdx.map fun (n, a) => if true && some a == some h then hcLen n else n)
+      = rshape.set h (hcLen (rshape.getD h 1)) := by
+  apply List.ext_getElem
+  · simp
+  · intro i h1 h2
+    simp only [List.getElem_map, List.getElem_zipIdx, List.getElem_set]
+    by_cases hi : h = i
+    · subst hi; simp [List.getD_eq_getElem?_getD, hh]
+    · have : i ≠ h := fun e => hi e.symm
+      simp [hi, this]
+
+theorem irfft_congr {K : Type} [Field K] (σ : K → K) (winv : K) (n : Nat) (f g : Nat → K)
+    (h : ∀ j, j < hcLen n → f j = g j) (k : Nat) :
+    npIrfft σ winv n f k = npIrfft σ winv n g k := by
+  unfold npIrfft npIfft
+  rw [dftSum_congr winv n (hermExt σ n f) (hermExt σ n g)]
+  intro j hj
+  unfold hermExt
+  split_ifs with hle
+  · exact h j (by unfold hcLen; omega)
+  · rw [h (n - j) (by unfold hcLen; omega)]
+
+end OdlModel.Fourier
